@@ -1176,7 +1176,8 @@ static Target t = {
     "linepart::array::apply for two coordinates ((x,y) sequences of length <= 6 (7) over {below,inside,above} x {inside,above}, from set(N) and from an empty array), where the points "
     "polyline::part::points() serves have to be exactly the points in range in every coordinate applied. "
     "two coordinates with different crossing fractions per coordinate ((x,y) sequences of length <= 3 (4) over 5 x 5 values), end fractions checked against the last crossing of "
-    "all coordinates; object histories: up to 16 steps of polyline::set (1-2 coordinates, also of different length, also around 65533/65535/131066 points) / clear / copy and linepart::array "
+    "all coordinates; the library's graph transformation layout::graph::transform3 (1-3 dimensions without limit / linear limit / logarithmic limit) as alternative "
+    "transformation of the C++ scenario and of the chunk-limit sub-space; object histories: up to 16 steps of polyline::set (1-2 coordinates, also of different length, also around 65533/65535/131066 points) / clear / copy and linepart::array "
     "set(n) / apply / set(-1) / set(0) / copy on 3 polylines and 3 part arrays, every live object checked after every step against the data it was made for (parts, points "
     "served, point count, point values through the apply<>() template, terminating iteration); apply_data without part records. "
     "non-trivial: a part carries a cut or trim fraction, a join was accepted, the run is longer than 65535, a join hit the 16-bit limit, two fractions encode differently "
